@@ -45,6 +45,18 @@ func verifHarnessC06() {
 	verifAssert(err == nil, "C06.open-err")
 	m := newVModel(len(kp.keys))
 	ops := vOpsFromMask(verifParam("ops"))
+	// premerge: an earlier merge generation (history, Merge, adopting restart) before the one under test
+	if pm := verifParam("premerge"); pm > 0 {
+		for step := 0; step < pm; step++ {
+			db = vStep(db, opts, kp, m, ops, "C06.pre")
+		}
+		verifAssert(db.Merge() == nil, "C06.premerge-err")
+		verifAssert(db.Close() == nil, "C06.premerge-close-err")
+		db, err = Open(opts)
+		verifAssert(err == nil, "C06.premerge-reopen-err")
+		verifSameMapping(db, kp, m, "C06.after-first-adoption")
+		verifReach("second-generation")
+	}
 	for step := 0; step < K; step++ {
 		db = vStep(db, opts, kp, m, ops, "C06")
 	}
